@@ -564,7 +564,7 @@ func c17FanOut(r *Run) {
 			}
 			go func() {
 				for m := range ch {
-					c.got = append(c.got, m.Copy())
+					c.got = append(c.got, SnapMsg(m))
 					m.Ack()
 				}
 			}()
